@@ -151,6 +151,47 @@ var (
 	tor11 = sync.OnceValue(func() ref.G1 { p, _ := ref.TorsionE1(11, []byte("c01")); return p })
 )
 
+// cancellingGarbage returns non-zero byte patterns (to be OR-ed over an infinity encoding of L bytes; index
+// 0 only gets low bits) whose bytes cancel under the accumulations a "rest must be zero" test might use
+// instead of an early-exit loop: sum = 0 mod 256, xor = 0, or both.
+func cancellingGarbage(r *rand.Rand, L int) [][]byte {
+	var out [][]byte
+	mk := func(set map[int]byte) {
+		b := make([]byte, L)
+		for i, v := range set {
+			b[i] = v
+		}
+		out = append(out, b)
+	}
+	i, j := 1+r.IntN(L-1), 1+r.IntN(L-1)
+	for j == i {
+		j = 1 + r.IntN(L-1)
+	}
+	k := 1 + r.IntN(L-1)
+	for k == i || k == j {
+		k = 1 + r.IntN(L-1)
+	}
+	mk(map[int]byte{i: 0x80, j: 0x80})                   // sum 256, xor 0
+	mk(map[int]byte{1: 0x80, L - 1: 0x80})               // same, first and last body byte
+	mk(map[int]byte{i: 0xFF, j: 0x01})                   // sum 256
+	mk(map[int]byte{0: 0x01, L - 1: 0xFF})               // low header bit + last byte: sum 256
+	mk(map[int]byte{i: 0x55, j: 0x55})                   // xor 0
+	mk(map[int]byte{i: 0x40, j: 0x40, k: 0x80})          // sum 256
+	mk(map[int]byte{0: 0x1F, i: 0xE1})                   // header low bits 0x1F + 0xE1 = 256
+	mk(map[int]byte{i: 0x01, j: 0x02, k: 0x03})          // xor 0
+	all := map[int]byte{}
+	for x := 1; x < L; x++ {
+		all[x] = 0x10 // (L-1)*16: 752 for 48, 1520 for 96 - not 0 mod 256, but xor 0 when L-1 is even... kept as plain garbage
+	}
+	mk(all)
+	quad := map[int]byte{}
+	for x := 0; x < 4; x++ {
+		quad[1+x*((L-1)/4)] = 0x40 // four times 0x40: sum 256, xor 0
+	}
+	mk(quad)
+	return out
+}
+
 // sigClass classifies a candidate signature string by the reference.
 func sigClass(b []byte) string {
 	p, cls := ref.DecodeG1(b)
@@ -237,6 +278,13 @@ func g1Candidates(E, H ref.G1, r *rand.Rand, nRandom int, full bool) []cand {
 	c := append([]byte{}, inf...)
 	c[0] |= 0x20
 	add("infinity-garbage", c)
+	for _, g := range cancellingGarbage(r, 48) {
+		c := append([]byte{}, inf...)
+		for i, v := range g {
+			c[i] |= v
+		}
+		add("infinity-garbage-cancelling", c)
+	}
 	// lengths
 	maxLen := 200
 	for l := 0; l <= maxLen; l++ {
